@@ -468,7 +468,11 @@ class Connection(object):
 
             if not immediate and self.socket is not None:
                 # Flush any packets remaining in the queue.
-                while self._pop_packet():
+                try:
+                    while self._pop_packet():
+                        pass
+                except socket.error:
+                    # The connection is already broken; carry on closing it.
                     pass
 
             if self.new_networking_thread is not None:
